@@ -60,6 +60,13 @@ void_fmt!(Display, Debug, LowerHex);
 impl ::std::error::Error for Void {}
 impl ::core::ops::Not for Void { type Output = Void; fn not(self) -> Void { self } }
 impl ::core::ops::Add for Void { type Output = Void; fn add(self, _: Void) -> Void { self } }
+
+/// an error type only when its argument is Debug: a derive(Error) on `S<T>(We<..T..>)` compiles generically only if the derive
+/// itself adds the bound `We<..T..>: Error + 'static`
+pub struct We<X>(pub X);
+impl<X: ::core::fmt::Debug> ::core::fmt::Debug for We<X> { fn fmt(&self, f: &mut ::core::fmt::Formatter<'_>) -> ::core::fmt::Result { f.write_str("we") } }
+impl<X: ::core::fmt::Debug> ::core::fmt::Display for We<X> { fn fmt(&self, f: &mut ::core::fmt::Formatter<'_>) -> ::core::fmt::Result { f.write_str("we") } }
+impl<X: ::core::fmt::Debug> ::std::error::Error for We<X> {}
 '''
 
 GENS = [
@@ -189,6 +196,12 @@ def table():
                   T(dd + "#[display(\"e\")] struct {S}<T>(Box<T>);", gens=["none"], note="type parameter inside a generic argument"),
                   T(dd + "#[display(\"e\")] struct {S}<T>(::std::boxed::Box<T>);", gens=["none"], note="type parameter in the last segment of a multi-segment path"),
                   T(dd + "#[display(\"e\")] struct {S}<T: 'static>(H<T, 1>);", gens=["none"], note="type parameter among several generic arguments"),
+                  T(dd + "#[display(\"e\")] struct {S}<T>(We<T>);", gens=["none"], note="conditional error wrapper (control)"),
+                  T(dd + "#[display(\"e\")] struct {S}<T>(We<[T; 1]>);", gens=["none"], note="type parameter inside an array type"),
+                  T(dd + "#[display(\"e\")] struct {S}<T>(We<(T, u8)>);", gens=["none"], note="type parameter inside a tuple type"),
+                  T(dd + "#[display(\"e\")] enum {S}<T: 'static> {{ {V} {{ source: We<&'static [T]> }}, Cc }}", gens=["none"], note="type parameter inside a slice reference"),
+                  T(dd + "#[display(\"e\")] struct {S}<T: 'static>(We<fn(T) -> T>);", gens=["none"], note="type parameter inside a fn pointer type"),
+                  T(dd + "#[display(\"e\")] struct {S}<T: 'static>(We<*const T>);", gens=["none"], note="type parameter behind a raw pointer"),
                   T(dd + "#[display(\"e\")] struct {S}<T: 'static>(H<(), 1>, ::core::marker::PhantomData<T>);", gens=["none"], note="parameter only in a non-source field"),
                   T(dd + "#[display(\"e\")] struct {S}<T: Tr> where T::A: ::core::fmt::Debug {{ source: T::A }}", gens=["none"], note="associated type of a parameter"),
                   T(dd + "#[display(\"e\")] enum {S}<T, U> {{ {V}(T), B {{ source: U }}, Cc }}", gens=["none"]),
@@ -225,8 +238,9 @@ def table():
         t[d] += [T("struct {S}<T>(T);", gens=N), T("struct {S}<T, U>(T, U);", gens=N)]
     for d in ("Not", "Neg"):
         t[d] += [T("struct {S}<T>(T, T);", gens=N), T("enum {S}<T> {{ {V}(T), B {{ {F}: T }} }}", gens=N), T("enum {S}<T> {{ {V}(T), Cc }}", gens=N)]
-    t["Sum"] += [T("#[derive(derive_more::Add)] struct {S}<T>(T, T);", gens=N)]
-    t["Product"] += [T("#[derive(derive_more::Mul)] @[mul(forward)] struct {S}<T>(T, T);", gens=N)]
+    t["Sum"] += [T("#[derive(derive_more::Add)] struct {S}<T>(T, T);", gens=N), T("#[derive(derive_more::Add)] struct {S}<I>(I, I);", gens=N, note="a type parameter called I")]
+    t["Product"] += [T("#[derive(derive_more::Mul)] @[mul(forward)] struct {S}<T>(T, T);", gens=N),
+                     T("#[derive(derive_more::Mul)] @[mul(forward)] struct {S}<I>(I, I);", gens=N, note="a type parameter called I")]
     t["Constructor"] += [T("struct {S}<'a, T: ?Sized, const N: usize>(&'a T, [u8; N]);", gens=N), T("struct {S}<T> {{ {F}: T, other: Vec<T> }}", gens=N)]
     t["From"] += [T("struct {S}<T>(T);", gens=N), T("struct {S}<T, U>(T, U);", gens=N), T("enum {S}<T> {{ {V}(T), Cc }}", gens=N)]
     # (Into with a bare type parameter as the target violates the orphan rule; Vec<T> etc. are fine)
@@ -235,7 +249,10 @@ def table():
     t["DerefMut"] += [T("#[derive(derive_more::Deref)] struct {S}<T>(T);", gens=N), T("#[derive(derive_more::Deref)] @[deref(forward)] @[deref_mut(forward)] struct {S}<T>(Box<T>);", gens=N)]
     for d, a in (("AsRef", "as_ref"), ("AsMut", "as_mut")):
         t[d] += [T("struct {S}<T>(T);", gens=N), T("@[%s(T)] struct {S}<T>(T);" % a, gens=N), T("@[%s(forward)] struct {S}<T>(T);" % a, gens=N),
-                 T("@[%s([T])] struct {S}<T>(Vec<T>);" % a, gens=N)]
+                 T("@[%s([T])] struct {S}<T>(Vec<T>);" % a, gens=N),
+                 # the field's type is an associated type of a parameter, in both spellings: forwarded with a where-bound
+                 T("@[%s(u8)] struct {S}<T: Tr>(<T as Tr>::A);" % a, gens=N, note="qualified associated type"),
+                 T("@[%s(u8)] struct {S}<T: Tr>(T::A);" % a, gens=N, note="shorthand associated type")]
     t["Index"] += [T("struct {S}<T>(Vec<T>);", gens=N), T("struct {S}<K: ::core::hash::Hash + Eq, V> {{ {F}: ::std::collections::HashMap<K, V>, @[index(ignore)] other: u8 }}", gens=N)]
     t["IndexMut"] += [T("#[derive(derive_more::Index)] struct {S}<T>(Vec<T>);", gens=N)]
     t["IntoIterator"] += [T("@[into_iterator(owned, ref, ref_mut)] struct {S}<T>(Vec<T>);", gens=N), T("struct {S}<T: IntoIterator>(T);", gens=N)]
@@ -330,7 +347,9 @@ def build(thorough):
     raw = ("r#type", "r#fn", "r#loop")
     # names that coincide with the associated items of the derived traits (`Self::Output`, `Self::Target`, `Self::Error`, `Self::Err`,
     # `Self::Item`, `Self::IntoIter`): a variant of that name makes `Self::X` ambiguous inside the generated impl
-    assoc = (("Item", "Output", "target"), ("Target", "Error", "output"), ("IntoIter", "Err", "item"), ("Output", "Target", "error"), ("Error", "Item", "into_iter"))
+    assoc = (("Item", "Output", "target"), ("Target", "Error", "output"), ("IntoIter", "Err", "item"), ("Output", "Target", "error"), ("Error", "Item", "into_iter"),
+             # ... and with the helper items the expansions import into their function bodies
+             ("AsDynError", "ExtractRef", "conv"), ("ExtractRef", "AsDynError", "value"))
     cases, metas, reqs = [], [], []
     for derive, tmpls in tab.items():
         for ti, tmpl in enumerate(tmpls):
